@@ -46,6 +46,9 @@ def _case(draw):
 
 def _large_cases(th):
     yield {'spec': D.large_curated_spec(), 'ncc': 3, 'large': True}
+    # a single stray spike of another template among 120 000 (thorough: up to 10**6)
+    for n in [120000] + ([100001, 10 ** 6] if th else []):
+        yield {'spec': D.stray_spike_spec(n), 'ncc': 12, 'large': True, 'stray': n}
     if th:
         yield {'spec': D.large_curated_spec(nt=257, ns=1200, seed=11), 'ncc': 12, 'large': True}
         yield {'spec': D.large_curated_spec(nt=700, ns=2500, seed=12), 'ncc': 2, 'large': True}
@@ -211,7 +214,8 @@ def check(case):
 
 def classify(case, info):
     s = case['spec']
-    labels = (['large:%d-templates-uint16' % s['nt']] if case.get('large') else []) + [
+    labels = (['large:%d-templates-uint16' % s['nt']] if case.get('large') and not case.get('stray')
+              else []) + (['one-stray-spike-in-%d' % case['stray']] if case.get('stray') else []) + [
         'curated' if s['curation'] else 'un-curated', 'ncc:%s' % ('<=4' if case['ncc'] <= 4
                                                                          else '>4')]
     nt = False
